@@ -145,7 +145,7 @@ def write_cfg(path, text):
 
 def dump_json(path, obj):
     with open(path, "w") as f:
-        json.dump(obj, f, separators=(",", ":"))
+        json.dump(obj, f, separators=(",", ":"), default=lambda o: "<%s object>" % type(o).__name__)    # (never crash on an odd object)
     return path
 
 
